@@ -177,6 +177,26 @@ pub fn run(ctx: &Ctx) -> i32 {
             }
         }
     });
+    // files with hundreds of findings per detector (600, 1500) and multi-byte comments: the same relation
+    let n_many = ctx.tier.pick(2u64, 8u64);
+    run_workload(ctx, &mut acc, "many-findings", n_many, |k, rng, acc| {
+        let n = if k % 2 == 0 { 600 } else { 1500 };
+        let mut t = String::from("pragma solidity ^0.8.0;\n// 合约 é 合约合约合约 😀😀 préambule\ncontract Many {\n    uint256 x;\n    uint256[] arr;\n    function f(uint256 a, uint256 b) public {\n");
+        for i in 0..n {
+            match (i + rng.below(3)) % 4 {
+                0 => t.push_str(&format!("        x++; /* é {} */\n", i)),
+                1 => t.push_str(&format!("        arr[0] = arr[0] + {}; // 合约\n", i % 7)),
+                2 => t.push_str(&format!("        require(a >= b && b != {}, \"é\");\n", i)),
+                _ => t.push_str(&format!("        x = a / {} * 2;\n", (i % 5) + 2)),
+            }
+        }
+        t.push_str("    }\n}\n");
+        let p = corpus::Prog { name: format!("many-findings#{}", k), text: t };
+        if let Some(tp) = progsrc::from_corpus(&p, acc) {
+            acc.cov("programs:many-findings");
+            check_prog(&tp, &layouts[..layouts.len().min(6)], rng, acc);
+        }
+    });
     let n = ctx.tier.pick(200u64, 4000u64);
     run_workload(ctx, &mut acc, "generated", n, |k, rng, acc| {
         let mut cfg = if k % 4 == 0 { Cfg::hostile() } else { Cfg::normal() };
